@@ -184,6 +184,18 @@ class HoistSetupCallsIntoConditionals(RewritePattern):
         old_in_state = op.in_state
         assert isinstance(old_in_state, OpResult)
 
+        # Step 0: Check that the setup can be expressed inside of the scf.if:
+        # the setup must be in the same block as the scf.if (otherwise it would be executed on paths
+        # it was not executed on before), and all values it sets must already be available before the scf.if
+        if_op = op.in_state.owner
+        block = if_op.parent_block()
+        if block is None or op.parent_block() is not block:
+            return
+        for val in op.values:
+            if isinstance(val, OpResult) and val.op.parent_block() is block:
+                if block.get_operation_index(val.op) > block.get_operation_index(if_op):
+                    return
+
         # Step 1: Check that it's legal to move:
         # grab all launch op uses of the SSA value produced by the scf.if
         # this will only find things that happen *after* the scf.if, so nothing
